@@ -59,8 +59,8 @@ HISTORY = {'parsed': 0}
 
 
 def history():
-    """what this process parsed before: a verdict must not depend on it, a replay re-creates it"""
-    return {'urls_parsed_before': HISTORY['parsed']}
+    """what this process parsed before and the logging level: a verdict must not depend on either, a replay re-creates both"""
+    return {'urls_parsed_before': HISTORY['parsed'], 'log_level': LEVEL['now']}
 
 
 def warm_url(k):
@@ -71,11 +71,35 @@ def warm_expected(k):
     return 'http://w%d.h%d.example:%d/p%d/x?q=%d' % (k, k % 7, 1000 + k % 50000, k, k)
 
 
+class log_level:
+    """the logging level as a dimension: wpull sets the ROOT logger to DEBUG for --debug and for every --warc-file run; the
+    wpull loggers inherit it.  A handler that formats every record is attached (see NullHandler)."""
+    def __init__(self, level):
+        self.level = level
+
+    def __enter__(self):
+        root = logging.getLogger()
+        self.old = root.level
+        root.setLevel(self.level)
+        LEVEL['now'] = logging.getLevelName(self.level)
+
+    def __exit__(self, *a):
+        logging.getLogger().setLevel(self.old)
+        LEVEL['now'] = logging.getLevelName(self.old)
+        return False
+
+
+LEVEL = {'now': 'WARNING'}
+LEVELS = [logging.WARNING, logging.INFO, logging.DEBUG]
+
+
 def from_real_code(exc, repo):
     """did the exception come out of the code under test (innermost frame inside the wpull tree)?"""
     import traceback
     tb = traceback.extract_tb(exc.__traceback__)
-    return bool(tb) and os.path.realpath(tb[-1].filename).startswith(os.path.realpath(repo) + os.sep)
+    root = os.path.realpath(repo) + os.sep
+    # raised in, or on behalf of, the code under test (e.g. inside the logging module called by wpull)
+    return any(os.path.realpath(f.filename).startswith(root) for f in tb)
 
 
 def run_stream(ctx, name, fn):
@@ -89,8 +113,9 @@ def run_stream(ctx, name, fn):
         if not from_real_code(e, ctx.repo):
             raise
         import traceback
-        tb = traceback.extract_tb(e.__traceback__)
-        ctx.fail('non-valueerror-exception', 'stream:' + name,
+        root = os.path.realpath(ctx.repo) + os.sep
+        tb = [f for f in traceback.extract_tb(e.__traceback__) if os.path.realpath(f.filename).startswith(root)]
+        ctx.fail('non-valueerror-exception', 'stream:' + name.split('@')[0],
                  {'stream': 'longrun', 'url': warm_url(HISTORY['parsed'] + 1), 'history': history()},
                  '%s: %s escaped the real code at %s:%d (%s) while stream %s ran, after %d URLs had been parsed in this process'
                  % (type(e).__name__, str(e)[:200], os.path.relpath(tb[-1].filename, ctx.repo), tb[-1].lineno, tb[-1].name,
@@ -127,6 +152,7 @@ def setup(ctx):
     lg = logging.getLogger('wpull')
     lg.addHandler(NullHandler())
     lg.propagate = False
+    lg.setLevel(logging.NOTSET)           # inherits the root logger's level, as in the application
     if ctx.repo not in sys.path:
         sys.path.insert(0, ctx.repo)
     orig = codecs.lookup('idna')
@@ -382,7 +408,10 @@ class Case:
         return (self.url, self.ds, self.encoding)
 
     def as_json(self):
-        return {'stream': 'parse', 'url': self.url, 'default_scheme': self.ds, 'encoding': self.encoding}
+        j = {'stream': 'parse', 'url': self.url, 'default_scheme': self.ds, 'encoding': self.encoding}
+        if LEVEL['now'] != 'WARNING':
+            j['log_level'] = LEVEL['now']
+        return j
 
 
 def py_strip_prefix(url):
@@ -1400,6 +1429,12 @@ def stream_pct256(ctx, wu):
         if real != rep:
             ctx.disagree('pct', case, rep, real)
     ctx.note('pct256', 'percent_encode compared for all 256 byte values x 5 encode sets')
+
+
+def replay_level(case):
+    """the logging level a failing case was observed under"""
+    name = case.get('log_level') or (case.get('history') or {}).get('log_level') or 'WARNING'
+    return log_level(getattr(logging, name, logging.WARNING))
 
 
 def replay_history(wu, case):
